@@ -16,17 +16,60 @@
 //!   `ROLLBACK TO c` again, then to the other retained checkpoint and back.
 //! Part S: three to five checkpoints taken within the same clock second, under several hash seeds:
 //!   the newest two must be the ones kept.
+//! Part A (auto-checkpoints): the same BFS on a router whose checkpoint manager has auto-checkpoint ON
+//!   (interactive confirmation off) over a destructive-heavy alphabet.  Whatever checkpoint a data
+//!   statement creates (`QueryRouter::protect_destructive_op` -> `CheckpointManager::create_auto`) is
+//!   learnt from the CHECKPOINTS listing (new id, is_auto) and entered into the reference in creation
+//!   order together with the manual ones; its recorded battery is the one taken right BEFORE that
+//!   statement ran.  Retention and rollback (by id, auto names are not unique) are checked for them
+//!   exactly as for manual checkpoints.  The harness does not demand that any statement creates an
+//!   auto-checkpoint (the property does not), it only counts them (non-vacuity).
+//! Part B (Bloom-filtered store): the BFS of part M (one level shallower) on
+//!   `QueryRouter::with_shared_store(TensorStore::with_bloom_filter(4096, 0.001))`; a violating history
+//!   is re-run on the plain store: what fails only with the filter gets a `c08:bloom-store:` signature.
 use nvc::Report;
 use query_router::{QueryResult, QueryRouter};
 use serde_json::{json, Value};
 use std::collections::{BTreeMap, HashSet};
 use std::hash::{Hash, Hasher};
 use tensor_checkpoint::CheckpointConfig;
+use tensor_store::TensorStore;
 
 static MAX_CP: std::sync::atomic::AtomicUsize = std::sync::atomic::AtomicUsize::new(2);
 /// the configured `max_checkpoints` of the routers built by this process
 fn max_cp() -> usize {
     MAX_CP.load(std::sync::atomic::Ordering::Relaxed)
+}
+/// router configuration of a part: auto-checkpoint on/off, store kind (0 = TensorStore::new(),
+/// 1 = with_bloom_filter(4096, 0.001), 2 = with_default_bloom_filter())
+#[derive(Clone, Copy, PartialEq, Eq, Debug, Default)]
+struct Cfg {
+    auto: bool,
+    bloom: u8,
+}
+impl Cfg {
+    fn encode(self) -> usize {
+        usize::from(self.auto) | (self.bloom as usize) << 1
+    }
+    fn decode(v: usize) -> Cfg {
+        Cfg { auto: v & 1 == 1, bloom: (v >> 1) as u8 }
+    }
+    fn store_name(self) -> &'static str {
+        match self.bloom {
+            0 => "TensorStore::new()",
+            1 => "TensorStore::with_bloom_filter(4096, 0.001)",
+            _ => "TensorStore::with_default_bloom_filter()",
+        }
+    }
+    fn from_store_name(n: &str) -> u8 {
+        if n.contains("with_bloom_filter") {
+            1
+        } else if n.contains("default_bloom") {
+            2
+        } else {
+            0
+        }
+    }
 }
 const NODE_IDS: u64 = 9;
 const EDGE_IDS: u64 = 4;
@@ -48,7 +91,11 @@ enum St {
     EmbB,
     EmbDelA,
     Checkpoint,
+    /// ROLLBACK TO the checkpoint with this creation ordinal (manual: by name 'c<j>', automatic: by id)
     Rollback(u8),
+    /// `DROP TABLE t` through the string-command entry point `QueryRouter::execute` (the only DROP
+    /// TABLE path that goes through `protect_destructive_op`)
+    DropTableX,
 }
 
 #[derive(Clone, Copy, PartialEq, Eq, Debug)]
@@ -143,28 +190,49 @@ fn fam_idx(f: Fam) -> u8 {
     }
 }
 
+/// one entry of the CHECKPOINTS listing
+#[derive(Clone, Debug)]
+struct Listed {
+    id: String,
+    name: String,
+    auto: bool,
+}
+
 struct Sys {
     r: QueryRouter,
     queries: Vec<(Fam, String)>,
 }
 impl Sys {
-    fn new() -> Sys {
-        let mut r = QueryRouter::new();
+    fn new(cfg: Cfg) -> Sys {
+        let store = match cfg.bloom {
+            0 => TensorStore::new(),
+            1 => TensorStore::with_bloom_filter(4096, 0.001),
+            _ => TensorStore::with_default_bloom_filter(),
+        };
+        assert_eq!(store.has_bloom_filter(), cfg.bloom != 0);
+        let mut r = QueryRouter::with_shared_store(store);
         r.init_blob().expect("init_blob");
-        r.init_checkpoint_with_config(CheckpointConfig::default().with_max_checkpoints(max_cp()).with_auto_checkpoint(false).with_interactive_confirm(false)).expect("init_checkpoint");
+        r.init_checkpoint_with_config(CheckpointConfig::default().with_max_checkpoints(max_cp()).with_auto_checkpoint(cfg.auto).with_interactive_confirm(false)).expect("init_checkpoint");
         Sys { r, queries: battery_queries() }
     }
     fn exec(&self, s: &str) -> Result<QueryResult, query_router::RouterError> {
         self.r.execute_parsed(s)
     }
+    /// a statement of the alphabet: everything goes through `execute_parsed` except `DropTableX`
+    fn exec_st(&self, st: St, text: &str) -> Result<QueryResult, query_router::RouterError> {
+        match st {
+            St::DropTableX => self.r.execute("DROP TABLE t"),
+            _ => self.r.execute_parsed(text),
+        }
+    }
     /// full = including the LIST scans (each of them builds a tokio runtime inside the router: ~0.5 ms)
     fn observe(&self, full: bool) -> Obs {
         Obs { reads: self.queries.iter().filter(|(_, q)| full || !is_scan(q)).map(|(f, q)| (fam_idx(*f), q.clone(), canon(&self.exec(q)))).collect() }
     }
-    /// names listed by CHECKPOINTS (None = the statement failed)
-    fn listed(&self) -> Option<Vec<String>> {
+    /// what CHECKPOINTS lists, most recent first (None = the statement failed)
+    fn listed(&self) -> Option<Vec<Listed>> {
         match self.exec("CHECKPOINTS LIMIT 100") {
-            Ok(QueryResult::CheckpointList(l)) => Some(l.into_iter().map(|c| c.name).collect()),
+            Ok(QueryResult::CheckpointList(l)) => Some(l.into_iter().map(|c| Listed { id: c.id, name: c.name, auto: c.is_auto }).collect()),
             _ => None,
         }
     }
@@ -177,11 +245,41 @@ struct Viol {
     replay: Value,
 }
 
+/// a checkpoint the reference knows about
+#[derive(Clone, Debug, PartialEq, Eq)]
+struct Cp {
+    /// creation ordinal over manual and automatic checkpoints together (1-based)
+    ord: u8,
+    name: String,
+    id: String,
+    auto: bool,
+}
+impl Cp {
+    fn label(&self) -> String {
+        if self.auto {
+            format!("#{}:{}", self.ord, self.name)
+        } else {
+            self.name.clone()
+        }
+    }
+    /// what ROLLBACK TO is given: manual checkpoints by their (unique) name, automatic ones by id
+    fn target(&self) -> String {
+        if self.auto {
+            self.id.clone()
+        } else {
+            self.name.clone()
+        }
+    }
+}
+
 #[derive(Default)]
 struct Model {
     /// retained checkpoints per the reference, oldest first
-    live: Vec<String>,
-    rec: BTreeMap<String, Obs>,
+    live: Vec<Cp>,
+    /// every checkpoint ever created, in creation order
+    all: Vec<Cp>,
+    /// battery recorded right before the checkpoint with this ordinal was taken
+    rec: BTreeMap<u8, Obs>,
     created: usize,
     node_creates: usize,
     edge_creates: usize,
@@ -190,15 +288,38 @@ struct Model {
     /// post-rollback write probes are skipped, the cause has been reported at that earlier step
     tainted: Vec<Fam>,
 }
+impl Model {
+    fn knows(&self, id: &str) -> bool {
+        self.all.iter().any(|c| c.id == id)
+    }
+    fn cp(&self, ord: u8) -> Cp {
+        self.all.iter().find(|c| c.ord == ord).cloned().unwrap_or(Cp { ord, name: format!("c{ord}"), id: String::new(), auto: false })
+    }
+    /// enter a new checkpoint as the newest one and apply count-based retention
+    /// returns the number of checkpoints the reference purges
+    fn push(&mut self, cp: Cp, rec: Obs) -> u64 {
+        self.rec.insert(cp.ord, rec);
+        self.all.push(cp.clone());
+        self.live.push(cp);
+        let mut purged = 0;
+        while self.live.len() > max_cp() {
+            self.live.remove(0);
+            purged += 1;
+        }
+        purged
+    }
+}
 
-fn text_of(s: St, m: &Model) -> String {
-    match s {
+/// (text that is executed, text that is shown in messages / replay files)
+fn text_of(s: St, m: &Model) -> (String, String) {
+    let t: String = match s {
         St::CreateTable => "CREATE TABLE t (id INT, name TEXT)".into(),
         St::Ins1 => "INSERT INTO t (id, name) VALUES (1, 'x')".into(),
         St::Ins2 => "INSERT INTO t (id, name) VALUES (2, 'y')".into(),
         St::Del1 => "DELETE FROM t WHERE id = 1".into(),
         St::Upd1 => "UPDATE t SET name = 'u' WHERE id = 1".into(),
         St::DropTable => "DROP TABLE t".into(),
+        St::DropTableX => return ("DROP TABLE t".into(), "DROP TABLE t /* via QueryRouter::execute */".into()),
         St::NodeCreate => format!("NODE CREATE p {{k: {}}}", m.node_creates + 1),
         St::EdgeCreate => "EDGE CREATE 1 -> 2 : e".into(),
         St::NodeDel1 => "NODE DELETE 1".into(),
@@ -208,8 +329,16 @@ fn text_of(s: St, m: &Model) -> String {
         St::EmbB => "EMBED STORE 'b' [0.6, 0.8]".into(),
         St::EmbDelA => "EMBED DELETE 'a'".into(),
         St::Checkpoint => format!("CHECKPOINT 'c{}'", m.created + 1),
-        St::Rollback(j) => format!("ROLLBACK TO 'c{j}'"),
-    }
+        St::Rollback(j) => {
+            let cp = m.cp(j);
+            let t = format!("ROLLBACK TO '{}'", cp.target());
+            if cp.auto {
+                return (t.clone(), format!("{t} /* checkpoint #{j} {} */", cp.name));
+            }
+            t
+        }
+    };
+    (t.clone(), t)
 }
 
 /// is `a` a sub-multiset of `b` (both sorted)
@@ -261,10 +390,22 @@ struct Outcome {
     statements: u64,
     reads: u64,
     rollback_checks: u64,
-    /// hash of (recorded, state before the rollback) when they differ
-    nontrivial: Vec<(u64, bool, bool)>,
+    /// hash of (recorded, state before the rollback) when they differ; data added / removed since; target is an auto-checkpoint
+    nontrivial: Vec<(u64, bool, bool, bool)>,
     retention_checks: u64,
     purges: u64,
+    /// the following four are counted for the last statement of the history only
+    /// names of the auto-checkpoints the last statement created
+    auto_created: Vec<String>,
+    /// checkpoints the reference purged because of them
+    auto_purges: u64,
+    /// main rollback checks whose target is an auto-checkpoint
+    auto_rollback_checks: u64,
+    /// retained set at the end (after the last statement) mixes manual and automatic checkpoints
+    mixed_retained: bool,
+    /// statements actually executed, as shown in messages (not sent back by worker processes)
+    #[serde(skip)]
+    texts: Vec<String>,
     tail_writes: u64,
     tail_skipped_tainted: u64,
     tail_rollbacks: u64,
@@ -280,6 +421,8 @@ fn h64<T: Hash>(t: &T, salt: u64) -> u64 {
 
 struct Ctx<'a> {
     hist_text: Vec<String>,
+    hist_codes: Vec<u8>,
+    cfg: Cfg,
     out: &'a mut Outcome,
     report: bool,
     selftest: bool,
@@ -289,7 +432,7 @@ impl Ctx<'_> {
         if !self.report {
             return;
         }
-        let mut replay = json!({"max_checkpoints": max_cp(), "history": self.hist_text, "clock": "frozen; +1500 ms before every CHECKPOINT"});
+        let mut replay = json!({"max_checkpoints": max_cp(), "auto_checkpoint": self.cfg.auto, "store": self.cfg.store_name(), "history": self.hist_text, "history_codes": self.hist_codes, "clock": "frozen; +1500 ms before every CHECKPOINT"});
         if let (Some(o), Some(e)) = (replay.as_object_mut(), extra.as_object()) {
             for (k, v) in e {
                 o.insert(k.clone(), v.clone());
@@ -299,35 +442,38 @@ impl Ctx<'_> {
     }
 }
 
-/// compare the listed checkpoints with the reference; report per category; resynchronise the
+/// compare the listed checkpoints (by id) with the reference; report per category; resynchronise the
 /// reference to what the system lists so that one defect is reported once per history.
+/// `cause`: "checkpoint" (a manual CHECKPOINT ran), "auto" (a data statement created auto-checkpoints),
+/// "data" (a data statement that created none), "rollback".
 /// returns true if the target (if any) is still listed
-fn check_list(sys: &Sys, m: &mut Model, cx: &mut Ctx, cause: &str, target: Option<&str>) -> bool {
-    let listed = match sys.listed() {
+fn compare_list(listed: Option<Vec<Listed>>, m: &mut Model, cx: &mut Ctx, cause: &str, target: Option<&Cp>) -> bool {
+    let listed = match listed {
         Some(l) => l,
         None => {
             cx.viol("c08:checkpoints-statement-fails", "CHECKPOINTS returned an error".into(), json!({"phase": cause}));
             return true;
         }
     };
-    let mut got: Vec<String> = listed.clone();
-    got.sort();
-    let mut want = m.live.clone();
-    want.sort();
     let mut target_ok = true;
-    if got != want {
-        let missing: Vec<String> = want.iter().filter(|n| !got.contains(n)).cloned().collect();
-        let extra: Vec<String> = got.iter().filter(|n| !want.contains(n)).cloned().collect();
-        let ord = |n: &str| n[1..].parse::<usize>().unwrap_or(0);
+    let same = listed.len() == m.live.len() && m.live.iter().all(|c| listed.iter().any(|l| l.id == c.id));
+    if !same {
+        let label = |l: &Listed| m.all.iter().find(|c| c.id == l.id).map(|c| c.label()).unwrap_or_else(|| format!("unknown:{}", l.name));
+        // both oldest first
+        let want: Vec<String> = m.live.iter().map(|c| c.label()).collect();
+        let got: Vec<String> = listed.iter().rev().map(label).collect();
+        let missing: Vec<Cp> = m.live.iter().filter(|c| !listed.iter().any(|l| l.id == c.id)).cloned().collect();
+        let extra: Vec<String> = listed.iter().rev().filter(|l| !m.live.iter().any(|c| c.id == l.id)).map(label).collect();
         match cause {
             "rollback" => {
                 let t = target.unwrap();
+                let tl = t.label();
                 let mut cats: Vec<&str> = vec![];
                 for n in &missing {
-                    let c = if n == t {
+                    let c = if n.ord == t.ord {
                         target_ok = false;
                         "target"
-                    } else if ord(n) < ord(t) {
+                    } else if n.ord < t.ord {
                         "older"
                     } else {
                         "newer"
@@ -337,32 +483,44 @@ fn check_list(sys: &Sys, m: &mut Model, cx: &mut Ctx, cause: &str, target: Optio
                     }
                 }
                 for c in cats {
-                    cx.viol(&format!("c08:rollback-changes-checkpoint-list:{c}-dropped"), format!("ROLLBACK TO '{t}' succeeded; retained checkpoints before it {want:?}, listed after it {got:?} ({c} checkpoint no longer listed)"), json!({"phase": "list-after-rollback", "retained_before": want, "listed_after": got}));
+                    cx.viol(&format!("c08:rollback-changes-checkpoint-list:{c}-dropped"), format!("ROLLBACK TO '{tl}' succeeded; retained checkpoints before it {want:?}, listed after it {got:?} ({c} checkpoint no longer listed)"), json!({"phase": "list-after-rollback", "retained_before": want, "listed_after": got}));
                 }
                 if !extra.is_empty() {
-                    cx.viol("c08:rollback-changes-checkpoint-list:purged-resurrected", format!("ROLLBACK TO '{t}': purged checkpoints listed again: {extra:?}"), json!({"phase": "list-after-rollback", "retained_before": want, "listed_after": got}));
+                    cx.viol("c08:rollback-changes-checkpoint-list:purged-resurrected", format!("ROLLBACK TO '{tl}': purged checkpoints listed again: {extra:?}"), json!({"phase": "list-after-rollback", "retained_before": want, "listed_after": got}));
                 }
             }
             "checkpoint" => {
                 cx.viol("c08:retention-keeps-wrong-set", format!("max_checkpoints={}: reference keeps the newest {want:?}, CHECKPOINTS lists {got:?}", max_cp()), json!({"phase": "list-after-checkpoint", "want": want, "listed": got}));
             }
+            "auto" => {
+                if listed.len() > max_cp() {
+                    cx.viol("c08:auto-checkpoint:retention-exceeds-limit", format!("max_checkpoints={}: after the statement created an auto-checkpoint {} checkpoints are retained: {got:?}; the newest {} are {want:?}", max_cp(), listed.len(), max_cp()), json!({"phase": "list-after-auto-checkpoint", "want": want, "listed": got}));
+                } else {
+                    cx.viol("c08:auto-checkpoint:retention-keeps-wrong-set", format!("max_checkpoints={}: after the statement created an auto-checkpoint the reference keeps the newest {want:?}, CHECKPOINTS lists {got:?}", max_cp()), json!({"phase": "list-after-auto-checkpoint", "want": want, "listed": got}));
+                }
+            }
             _ => {
                 cx.viol("c08:data-statement-changes-checkpoint-list", format!("a {cause} statement changed the checkpoint list from {want:?} to {got:?}"), json!({"phase": "list-after-data-statement", "want": want, "listed": got}));
             }
         }
-        // resynchronise (oldest first by ordinal)
-        let mut l = got.clone();
-        l.sort_by_key(|n| ord(n));
+        // resynchronise (oldest first by ordinal); listed entries the reference has never seen are
+        // not adopted (they have no recorded battery)
+        let mut l: Vec<Cp> = listed.iter().filter_map(|l| m.all.iter().find(|c| c.id == l.id).cloned()).collect();
+        l.sort_by_key(|c| c.ord);
         m.live = l;
     }
     target_ok
 }
 
-/// compare now with the record of `name`; returns the families that differ
-fn check_restored(sys: &Sys, m: &Model, cx: &mut Ctx, name: &str, phase: &str) -> (Obs, Vec<Fam>) {
+fn check_list(sys: &Sys, m: &mut Model, cx: &mut Ctx, cause: &str, target: Option<&Cp>) -> bool {
+    compare_list(sys.listed(), m, cx, cause, target)
+}
+
+/// compare now with the record of `cp`; returns the families that differ
+fn check_restored(sys: &Sys, m: &Model, cx: &mut Ctx, cp: &Cp, phase: &str) -> (Obs, Vec<Fam>) {
     let now = sys.observe(true);
     cx.out.reads += now.reads.len() as u64;
-    let mut rec = m.rec.get(name).expect("recorded observation").clone();
+    let mut rec = m.rec.get(&cp.ord).expect("recorded observation").clone();
     if cx.selftest {
         // deliberately corrupt the reference: pretend embedding 'z' existed at the checkpoint
         for r in rec.reads.iter_mut() {
@@ -371,6 +529,8 @@ fn check_restored(sys: &Sys, m: &Model, cx: &mut Ctx, name: &str, phase: &str) -
             }
         }
     }
+    let name = cp.label();
+    let (pre, took) = if cp.auto { ("c08:auto-checkpoint:rollback-data", "right before the statement that triggered the auto-checkpoint ran") } else { ("c08:rollback-data", "when the checkpoint was taken") };
     let mut bad = vec![];
     for fam in [Fam::Rel, Fam::Graph, Fam::Vector] {
         if let Some((q, kind, a, b)) = first_diff(&rec, &now, fam) {
@@ -381,8 +541,8 @@ fn check_restored(sys: &Sys, m: &Model, cx: &mut Ctx, name: &str, phase: &str) -
                 _ => "result differs",
             };
             cx.viol(
-                &format!("c08:rollback-data:{}:{kind}", fam.name()),
-                format!("ROLLBACK TO '{name}' ({phase}) succeeded but {what}: `{q}` returned {a:?} when '{name}' was taken and returns {b:?} now"),
+                &format!("{pre}:{}:{kind}", fam.name()),
+                format!("ROLLBACK TO '{name}' ({phase}) succeeded but {what}: `{q}` returned {a:?} {took} and returns {b:?} now"),
                 json!({"phase": phase, "checkpoint": name, "query": q, "at_checkpoint": a, "after_rollback": b}),
             );
         }
@@ -390,20 +550,22 @@ fn check_restored(sys: &Sys, m: &Model, cx: &mut Ctx, name: &str, phase: &str) -
     (now, bad)
 }
 
-fn rollback_and_check(sys: &Sys, m: &mut Model, cx: &mut Ctx, name: &str, phase: &str) -> Option<(Obs, Vec<Fam>, bool)> {
-    let stmt = format!("ROLLBACK TO '{name}'");
+fn rollback_and_check(sys: &Sys, m: &mut Model, cx: &mut Ctx, cp: &Cp, phase: &str) -> Option<(Obs, Vec<Fam>, bool)> {
+    let stmt = format!("ROLLBACK TO '{}'", cp.target());
+    let name = cp.label();
     cx.out.statements += 1;
     match sys.exec(&stmt) {
         Err(e) => {
             let kind = if format!("{e}").contains("not found") { "not-found" } else { "error" };
-            cx.viol(&format!("c08:rollback-fails:{kind}"), format!("`{stmt}` ({phase}) failed with `{e}` although '{name}' is a retained, listed checkpoint"), json!({"phase": phase, "checkpoint": name, "error": format!("{e}")}));
+            let pre = if cp.auto { "c08:auto-checkpoint:rollback-fails" } else { "c08:rollback-fails" };
+            cx.viol(&format!("{pre}:{kind}"), format!("`{stmt}` ({phase}) failed with `{e}` although '{name}' is a retained, listed checkpoint"), json!({"phase": phase, "checkpoint": name, "error": format!("{e}")}));
             None
         }
         Ok(_) => {
             m.rollbacks += 1;
             cx.out.rollback_checks += 1;
-            let (now, bad) = check_restored(sys, m, cx, name, phase);
-            let target_ok = check_list(sys, m, cx, "rollback", Some(name));
+            let (now, bad) = check_restored(sys, m, cx, cp, phase);
+            let target_ok = check_list(sys, m, cx, "rollback", Some(cp));
             Some((now, bad, target_ok))
         }
     }
@@ -508,23 +670,28 @@ fn tail_writes(sys: &Sys, cx: &mut Ctx, after_rb: &Obs, bad: &[Fam]) {
 
 /// replay `hist` on a fresh router; checks are reported for the last statement (and its tail) only.
 /// Full batteries are taken only where they are needed: right before every CHECKPOINT (the record),
-/// before and after the ROLLBACK under test, and (without the LIST scans) for the state key.
-fn run(hist: &[St], selftest: bool, verbose: bool) -> Outcome {
+/// with auto-checkpoint on right before every data statement (the record of the auto-checkpoint it
+/// may create), before and after the ROLLBACK under test, and (without the LIST scans) for the state key.
+fn run(hist: &[St], cfg: Cfg, selftest: bool, verbose: bool) -> Outcome {
     let mut out = Outcome::default();
-    let sys = Sys::new();
+    let sys = Sys::new(cfg);
     let mut m = Model::default();
     let mut texts: Vec<String> = vec![];
+    let codes: Vec<u8> = hist.iter().map(|s| code(*s)).collect();
+    // the LIST scans of a recorded battery are compared only by the ROLLBACK under test and its tail
+    let full = matches!(hist.last(), Some(St::Rollback(_)));
     for (i, &s) in hist.iter().enumerate() {
         let last = i + 1 == hist.len();
-        let text = text_of(s, &m);
-        texts.push(text.clone());
-        let mut cx = Ctx { hist_text: texts.clone(), out: &mut out, report: last, selftest };
+        let (text, shown) = text_of(s, &m);
+        texts.push(shown);
+        out.texts = texts.clone();
+        let mut cx = Ctx { hist_text: texts.clone(), hist_codes: codes.clone(), cfg, out: &mut out, report: last, selftest };
         match s {
             St::Checkpoint => {
                 cx.out.statements += 1;
                 nvc::env::clock_advance_ms(1500);
                 let name = format!("c{}", m.created + 1);
-                let before = sys.observe(true);
+                let before = sys.observe(full);
                 cx.out.reads += before.reads.len() as u64;
                 let res = sys.exec(&text);
                 if verbose {
@@ -534,13 +701,12 @@ fn run(hist: &[St], selftest: bool, verbose: bool) -> Outcome {
                     Err(e) => cx.viol("c08:checkpoint-fails", format!("`{text}` failed with `{e}`"), json!({"phase": "checkpoint", "error": format!("{e}")})),
                     Ok(_) => {
                         m.created += 1;
-                        m.live.push(name.clone());
-                        if m.live.len() > max_cp() {
-                            m.live.remove(0);
-                            cx.out.purges += 1;
-                        }
+                        let listed = sys.listed();
+                        // its id: the listed entry of that name which the reference has not seen before
+                        let id = listed.as_ref().and_then(|l| l.iter().find(|e| e.name == name && !m.knows(&e.id)).map(|e| e.id.clone())).unwrap_or_else(|| "<not listed>".to_string());
+                        cx.out.purges += m.push(Cp { ord: m.created as u8, name, id, auto: false }, before.clone());
                         cx.out.retention_checks += 1;
-                        check_list(&sys, &mut m, &mut cx, "checkpoint", None);
+                        compare_list(listed, &mut m, &mut cx, "checkpoint", None);
                         if last {
                             let after = sys.observe(false);
                             cx.out.reads += after.reads.len() as u64;
@@ -551,12 +717,11 @@ fn run(hist: &[St], selftest: bool, verbose: bool) -> Outcome {
                                 }
                             }
                         }
-                        m.rec.insert(name, before);
                     }
                 }
             }
             St::Rollback(j) => {
-                let name = format!("c{j}");
+                let cp = m.cp(j);
                 if !last {
                     // prefix replay: this rollback was checked when the prefix itself was the history
                     cx.out.statements += 1;
@@ -566,8 +731,8 @@ fn run(hist: &[St], selftest: bool, verbose: bool) -> Outcome {
                     }
                     if ok {
                         m.rollbacks += 1;
-                        check_list(&sys, &mut m, &mut cx, "rollback", Some(&name));
-                        if let Some(rec) = m.rec.get(&name) {
+                        check_list(&sys, &mut m, &mut cx, "rollback", Some(&cp));
+                        if let Some(rec) = m.rec.get(&j) {
                             let (rec, now) = (rec.cheap(), sys.observe(false));
                             cx.out.reads += now.reads.len() as u64;
                             for fam in [Fam::Rel, Fam::Graph, Fam::Vector] {
@@ -579,15 +744,16 @@ fn run(hist: &[St], selftest: bool, verbose: bool) -> Outcome {
                     }
                     continue;
                 }
-                let rec = m.rec.get(&name).cloned().unwrap_or_default();
+                let rec = m.rec.get(&j).cloned().unwrap_or_default();
                 let cur = sys.observe(true);
                 cx.out.reads += cur.reads.len() as u64;
                 if rec != cur {
                     let added = [Fam::Rel, Fam::Graph, Fam::Vector].iter().any(|f| matches!(first_diff(&rec, &cur, *f), Some((_, k, _, _)) if k != "missing"));
                     let removed = [Fam::Rel, Fam::Graph, Fam::Vector].iter().any(|f| matches!(first_diff(&rec, &cur, *f), Some((_, k, _, _)) if k != "extra"));
-                    cx.out.nontrivial.push((h64(&(&rec, &cur), 1), added, removed));
+                    cx.out.nontrivial.push((h64(&(&rec, &cur), 1), added, removed, cp.auto));
                 }
-                let r = rollback_and_check(&sys, &mut m, &mut cx, &name, "main");
+                cx.out.auto_rollback_checks += u64::from(cp.auto);
+                let r = rollback_and_check(&sys, &mut m, &mut cx, &cp, "main");
                 if verbose {
                     eprintln!("  {text} -> {}", if r.is_some() { "Ok" } else { "Err" });
                 }
@@ -596,8 +762,8 @@ fn run(hist: &[St], selftest: bool, verbose: bool) -> Outcome {
                     Some((now, _, _)) => now.cheap(),
                     None => sys.observe(false),
                 };
-                finish_key(&mut out, &after, &m);
-                let mut cx = Ctx { hist_text: texts.clone(), out: &mut out, report: true, selftest };
+                finish_key(&mut out, &after, &m, cfg);
+                let mut cx = Ctx { hist_text: texts.clone(), hist_codes: codes.clone(), cfg, out: &mut out, report: true, selftest };
                 if let Some((now, mut bad, target_ok)) = r {
                     for f in &m.tainted {
                         if !bad.contains(f) {
@@ -607,13 +773,13 @@ fn run(hist: &[St], selftest: bool, verbose: bool) -> Outcome {
                     tail_writes(&sys, &mut cx, &now, &bad);
                     if target_ok {
                         cx.out.tail_rollbacks += 1;
-                        let again = rollback_and_check(&sys, &mut m, &mut cx, &name, "tail: same checkpoint again, after one write of every kind");
-                        let other = m.live.iter().find(|n| **n != name).cloned();
+                        let again = rollback_and_check(&sys, &mut m, &mut cx, &cp, "tail: same checkpoint again, after one write of every kind");
+                        let other = m.live.iter().find(|c| c.ord != cp.ord).cloned();
                         if let (Some((_, _, true)), Some(o)) = (again, other) {
                             cx.out.tail_rollbacks += 1;
-                            if rollback_and_check(&sys, &mut m, &mut cx, &o, "tail: the other retained checkpoint").is_some() && m.live.contains(&name) {
+                            if rollback_and_check(&sys, &mut m, &mut cx, &o, "tail: the other retained checkpoint").is_some() && m.live.iter().any(|c| c.ord == cp.ord) {
                                 cx.out.tail_rollbacks += 1;
-                                rollback_and_check(&sys, &mut m, &mut cx, &name, "tail: back to the first one after rolling back to the other");
+                                rollback_and_check(&sys, &mut m, &mut cx, &cp, "tail: back to the first one after rolling back to the other");
                             }
                         }
                     } else {
@@ -624,7 +790,15 @@ fn run(hist: &[St], selftest: bool, verbose: bool) -> Outcome {
             }
             _ => {
                 cx.out.statements += 1;
-                let res = sys.exec(&text);
+                // with auto-checkpoint on, this is what an auto-checkpoint created by the statement must restore
+                let before = if cfg.auto && may_auto_checkpoint(s) {
+                    let b = sys.observe(full);
+                    cx.out.reads += b.reads.len() as u64;
+                    Some(b)
+                } else {
+                    None
+                };
+                let res = sys.exec_st(s, &text);
                 if verbose {
                     eprintln!("  {text} -> {res:?}");
                 }
@@ -635,38 +809,100 @@ fn run(hist: &[St], selftest: bool, verbose: bool) -> Outcome {
                         _ => {}
                     }
                 }
-                check_list(&sys, &mut m, &mut cx, "data", None);
+                let listed = sys.listed();
+                let mut cause = "data";
+                if let (true, Some(l)) = (cfg.auto, &listed) {
+                    // checkpoints the statement created: listed, automatic, never seen before; oldest first
+                    let fresh: Vec<Listed> = l.iter().rev().filter(|e| e.auto && !m.knows(&e.id)).cloned().collect();
+                    for e in fresh {
+                        // harness limit, not a verdict: no battery was recorded before this kind of statement
+                        let before = before.as_ref().unwrap_or_else(|| panic!("`{text}` created the auto-checkpoint {:?} but may_auto_checkpoint() does not list this statement kind: extend it", e.name));
+                        cause = "auto";
+                        m.created += 1;
+                        let p = m.push(Cp { ord: m.created as u8, name: e.name.clone(), id: e.id, auto: true }, before.clone());
+                        cx.out.purges += p;
+                        cx.out.retention_checks += 1;
+                        if last {
+                            cx.out.auto_created.push(e.name);
+                            cx.out.auto_purges += p;
+                        }
+                    }
+                }
+                compare_list(listed, &mut m, &mut cx, cause, None);
             }
         }
     }
     let cur = sys.observe(false);
     out.reads += cur.reads.len() as u64;
-    finish_key(&mut out, &cur, &m);
+    finish_key(&mut out, &cur, &m, cfg);
     out
 }
 
-fn finish_key(out: &mut Outcome, cur: &Obs, m: &Model) {
-    let live_rec: Vec<(&String, Option<&Obs>)> = m.live.iter().map(|n| (n, m.rec.get(n))).collect();
-    let k = (cur, &live_rec, m.created, m.node_creates, m.edge_creates, m.rollbacks.min(2));
-    out.key = (h64(&k, 2), h64(&k, 3));
+/// statement kinds before which a battery is recorded when auto-checkpoint is on (superset of the
+/// kinds that reach `protect_destructive_op`; the harness stops with a machinery failure if another
+/// kind ever creates one)
+fn may_auto_checkpoint(s: St) -> bool {
+    matches!(s, St::Del1 | St::Upd1 | St::DropTable | St::DropTableX | St::NodeDel1 | St::EdgeDel1 | St::EmbDelA)
+}
+
+fn finish_key(out: &mut Outcome, cur: &Obs, m: &Model, cfg: Cfg) {
+    // checkpoint ids (uuids) are not part of the state; recorded batteries enter without their LIST scans
+    if cfg.auto {
+        // with auto-checkpoint on nearly every statement creates a checkpoint: absolute creation
+        // ordinals would make every history its own state.  The state keeps the retained checkpoints
+        // in creation order with kind, auto name and recorded battery, and whether retention has
+        // already had to purge (created > K)
+        let live_rec: Vec<((bool, &str), Option<Obs>)> = m.live.iter().map(|c| ((c.auto, if c.auto { c.name.as_str() } else { "" }), m.rec.get(&c.ord).map(Obs::cheap))).collect();
+        let k = (cur, &live_rec, m.created.min(max_cp() + 1), m.node_creates, m.edge_creates, m.rollbacks.min(2));
+        out.key = (h64(&k, 2), h64(&k, 3));
+    } else {
+        let live_rec: Vec<((u8, bool, &String), Option<Obs>)> = m.live.iter().map(|c| ((c.ord, c.auto, &c.name), m.rec.get(&c.ord).map(Obs::cheap))).collect();
+        let k = (cur, &live_rec, m.created, m.node_creates, m.edge_creates, m.rollbacks.min(2));
+        out.key = (h64(&k, 2), h64(&k, 3));
+    }
     out.data_fingerprint = h64(cur, 4);
-    out.live_ordinals = m.live.iter().map(|n| n[1..].parse::<u8>().unwrap()).collect();
+    out.live_ordinals = m.live.iter().map(|c| c.ord).collect();
+    out.mixed_retained = m.live.iter().any(|c| c.auto) && m.live.iter().any(|c| !c.auto);
 }
 
 /// every replay runs in its own OS thread with the same entropy label: uuids and HashMap seeds are
 /// identical for every replay, whatever rayon thread hosts it
-fn run_isolated(hist: &[St], selftest: bool, seed: u64, verbose: bool) -> Outcome {
+fn run_isolated(hist: &[St], cfg: Cfg, selftest: bool, seed: u64, verbose: bool) -> Outcome {
     std::thread::scope(|sc| {
         std::thread::Builder::new()
             .stack_size(4 << 20)
             .spawn_scoped(sc, || {
                 nvc::env::set_thread_seed(seed);
-                run(hist, selftest, verbose)
+                run(hist, cfg, selftest, verbose)
             })
             .expect("spawn")
             .join()
             .expect("replay thread panicked")
     })
+}
+
+/// signature of a violation that shows only on the Bloom-filtered store
+fn bloom_sig(sig: &str) -> String {
+    let rest = sig.strip_prefix("c08:").unwrap_or(sig);
+    format!("c08:bloom-store:{}", rest.replace("rollback-data", "read-after-rollback-differs"))
+}
+
+/// one history under one configuration.  On a Bloom-filtered store a violating history is run again
+/// on the plain store: violations that do not show there are specific to the filter and get a
+/// `c08:bloom-store:` signature; the others keep the signature they have in part M.
+fn run_case(hist: &[St], cfg: Cfg, selftest: bool, verbose: bool) -> Outcome {
+    let mut o = run_isolated(hist, cfg, selftest, 1, verbose);
+    if cfg.bloom != 0 && !o.viols.is_empty() {
+        let plain = run_isolated(hist, Cfg { bloom: 0, ..cfg }, selftest, 1, false);
+        let plain_sigs: HashSet<&String> = plain.viols.iter().map(|v| &v.sig).collect();
+        for v in o.viols.iter_mut() {
+            if !plain_sigs.contains(&v.sig) {
+                v.sig = bloom_sig(&v.sig);
+                v.msg = format!("[only on {}; the same history is clean on TensorStore::new()] {}", cfg.store_name(), v.msg);
+            }
+        }
+    }
+    o
 }
 
 fn code(s: St) -> u8 {
@@ -686,11 +922,12 @@ fn code(s: St) -> u8 {
         St::EmbB => 12,
         St::EmbDelA => 13,
         St::Checkpoint => 14,
+        St::DropTableX => 15,
         St::Rollback(j) => 100 + j,
     }
 }
 fn decode(c: u8) -> St {
-    const T: [St; 15] = [St::CreateTable, St::Ins1, St::Ins2, St::Del1, St::Upd1, St::DropTable, St::NodeCreate, St::EdgeCreate, St::NodeDel1, St::EdgeDel1, St::EmbA1, St::EmbA2, St::EmbB, St::EmbDelA, St::Checkpoint];
+    const T: [St; 16] = [St::CreateTable, St::Ins1, St::Ins2, St::Del1, St::Upd1, St::DropTable, St::NodeCreate, St::EdgeCreate, St::NodeDel1, St::EdgeDel1, St::EmbA1, St::EmbA2, St::EmbB, St::EmbDelA, St::Checkpoint, St::DropTableX];
     if c >= 100 {
         St::Rollback(c - 100)
     } else {
@@ -709,13 +946,13 @@ struct Slice {
     sig_counts: BTreeMap<String, u64>,
 }
 
-fn run_slice(tasks: &[Vec<St>], me: usize, n: usize, selftest: bool) -> Slice {
+fn run_slice(tasks: &[Vec<St>], me: usize, n: usize, cfg: Cfg, selftest: bool) -> Slice {
     let mut sl = Slice::default();
     for (i, h) in tasks.iter().enumerate() {
         if i % n != me {
             continue;
         }
-        let mut o = run_isolated(h, selftest, 1, false);
+        let mut o = run_case(h, cfg, selftest, false);
         for v in std::mem::take(&mut o.viols) {
             let c = sl.sig_counts.entry(v.sig.clone()).or_insert(0);
             *c += 1;
@@ -728,14 +965,14 @@ fn run_slice(tasks: &[Vec<St>], me: usize, n: usize, selftest: bool) -> Slice {
     sl
 }
 
-fn run_level(tasks: &[Vec<St>], workers: usize, selftest: bool, level: usize) -> Vec<Slice> {
+fn run_level(part: &str, tasks: &[Vec<St>], workers: usize, cfg: Cfg, selftest: bool, level: usize) -> Vec<Slice> {
     if tasks.len() < 64 || workers <= 1 {
-        return vec![run_slice(tasks, 0, 1, selftest)];
+        return vec![run_slice(tasks, 0, 1, cfg, selftest)];
     }
-    let path = format!("{}/level-{level}.tasks", nvc::env::scratch_root());
+    let path = format!("{}/level-{part}-{level}.tasks", nvc::env::scratch_root());
     let body: String = tasks.iter().map(|h| h.iter().map(|s| code(*s).to_string()).collect::<Vec<_>>().join(",") + "\n").collect();
     std::fs::write(&path, body).expect("write tasks");
-    let r = nvc::par::spawn_workers::<Slice>(workers, &[format!("--tasks={path}"), format!("--maxcp={}", max_cp())]);
+    let r = nvc::par::spawn_workers::<Slice>(workers, &[format!("--tasks={path}"), format!("--maxcp={}", max_cp()), format!("--mode={}", cfg.encode())]);
     let _ = std::fs::remove_file(&path);
     r
 }
@@ -748,7 +985,21 @@ fn data_alphabet(thorough: bool) -> Vec<St> {
     a
 }
 
-fn parse_hist(v: &Value) -> Vec<St> {
+/// part A: every statement kind of the alphabet that goes through `protect_destructive_op`
+/// (DELETE, DROP TABLE via `execute`, NODE DELETE, EDGE DELETE, EMBED DELETE) and what they need to have an effect
+fn auto_alphabet(thorough: bool) -> Vec<St> {
+    let mut a = vec![St::CreateTable, St::Ins1, St::Del1, St::DropTableX, St::NodeCreate, St::EdgeCreate, St::NodeDel1, St::EdgeDel1, St::EmbA1, St::EmbDelA];
+    if thorough {
+        a.extend([St::Ins2, St::DropTable, St::EmbB]);
+    }
+    a
+}
+
+fn parse_hist(r: &Value) -> Vec<St> {
+    if let Some(c) = r["history_codes"].as_array() {
+        return c.iter().map(|x| decode(x.as_u64().expect("code") as u8)).collect();
+    }
+    let v = &r["history"];
     // statements are recognised by their text
     let mut out = vec![];
     for t in v.as_array().expect("history array") {
@@ -763,6 +1014,8 @@ fn parse_hist(v: &Value) -> Vec<St> {
             St::Del1
         } else if t.starts_with("UPDATE") {
             St::Upd1
+        } else if t.starts_with("DROP") && t.contains("via QueryRouter::execute") {
+            St::DropTableX
         } else if t.starts_with("DROP") {
             St::DropTable
         } else if t.starts_with("NODE CREATE") {
@@ -783,6 +1036,8 @@ fn parse_hist(v: &Value) -> Vec<St> {
             St::EmbDelA
         } else if t.starts_with("CHECKPOINT") {
             St::Checkpoint
+        } else if let Some((_, r)) = t.split_once("/* checkpoint #") {
+            St::Rollback(r.split(' ').next().unwrap().parse().unwrap())
         } else if let Some(r) = t.strip_prefix("ROLLBACK TO 'c") {
             St::Rollback(r.trim_end_matches('\'').parse().unwrap())
         } else {
@@ -802,11 +1057,11 @@ fn part_s(rep: &mut Report, seeds: u64) -> (u64, u64) {
             let listed = std::thread::scope(|sc| {
                 sc.spawn(|| {
                     nvc::env::set_thread_seed(seed);
-                    let sys = Sys::new();
+                    let sys = Sys::new(Cfg::default());
                     for i in 1..=n {
                         sys.exec(&format!("CHECKPOINT 'c{i}'")).expect("checkpoint");
                     }
-                    sys.listed()
+                    sys.listed().map(|l| l.into_iter().map(|e| e.name).collect::<Vec<_>>())
                 })
                 .join()
                 .unwrap()
@@ -853,9 +1108,10 @@ fn main() {
     if let Some(k) = rep.args.flag("maxcp").and_then(|s| s.parse().ok()) {
         MAX_CP.store(k, std::sync::atomic::Ordering::Relaxed);
     }
+    let mode_cfg = Cfg::decode(rep.args.flag("mode").and_then(|s| s.parse().ok()).unwrap_or(0));
     if let (Some((me, n)), Some(path)) = (rep.args.worker, rep.args.flag("tasks")) {
         let tasks: Vec<Vec<St>> = std::fs::read_to_string(&path).expect("read tasks").lines().map(|l| l.split(',').filter(|x| !x.is_empty()).map(|x| decode(x.parse().unwrap())).collect()).collect();
-        nvc::par::emit_result(&run_slice(&tasks, me, n, selftest));
+        nvc::par::emit_result(&run_slice(&tasks, me, n, mode_cfg, selftest));
         std::process::exit(0);
     }
     if rep.args.rest.iter().any(|a| a == "--profile") {
@@ -863,7 +1119,7 @@ fn main() {
         let n = 200;
         let t0 = t();
         let mut syss = vec![];
-        for _ in 0..n { syss.push(Sys::new()); }
+        for _ in 0..n { syss.push(Sys::new(mode_cfg)); }
         let t1 = t();
         for s in &syss { for st in ["CREATE TABLE t (id INT, name TEXT)", "INSERT INTO t (id, name) VALUES (1, 'x')", "NODE CREATE p {k: 1}", "NODE CREATE p {k: 2}", "EDGE CREATE 1 -> 2 : e", "EMBED STORE 'a' [1.0, 0.0]"] { s.exec(st).unwrap(); } }
         let t2 = t();
@@ -892,8 +1148,10 @@ fn main() {
             n = part_s(&mut rep, 8).1;
             eprintln!("replay part S: {n} violating cases");
         } else {
-            let hist = parse_hist(&r["history"]);
-            let out = run_isolated(&hist, false, 1, true);
+            let hist = parse_hist(r);
+            let cfg = Cfg { auto: r["auto_checkpoint"].as_bool().unwrap_or(false), bloom: Cfg::from_store_name(r["store"].as_str().unwrap_or("")) };
+            eprintln!("replay: max_checkpoints={} auto_checkpoint={} store={}", max_cp(), cfg.auto, cfg.store_name());
+            let out = run_case(&hist, cfg, false, true);
             for v in out.viols {
                 n += 1;
                 eprintln!("replay: {} :: {}", v.sig, v.msg);
@@ -913,53 +1171,107 @@ fn main() {
     // quick: every history of <= 5 statements; thorough: <= 6, plus the histories of 7 that end in CHECKPOINT/ROLLBACK
     let extra_level = rep.args.flag("extra").map(|s| s == "1").unwrap_or(thorough);
     let alphabet = data_alphabet(thorough);
+    let alphabet_a = auto_alphabet(thorough);
     let workers = rep.args.flag("threads").and_then(|s| s.parse().ok()).unwrap_or(nvc::par::worker_count());
-    // (part name, max_checkpoints, full depth)
-    let mut configs: Vec<(&str, usize, usize)> = vec![("M", 2, full_depth)];
-    if thorough && rep.args.flag("depth").is_none() {
-        configs.push(("M_max1", 1, full_depth - 1));
-        configs.push(("M_max3", 3, full_depth - 1));
+    let only: Option<Vec<String>> = rep.args.flag("parts").map(|s| s.split(',').map(str::to_string).collect());
+    let plain = Cfg::default();
+    let auto = Cfg { auto: true, bloom: 0 };
+    let bloom = Cfg { auto: false, bloom: 1 };
+    let mut configs: Vec<Part> = vec![Part { name: "M", cfg: plain, k: 2, depth: full_depth, extra: extra_level, alphabet: &alphabet }];
+    if rep.args.flag("depth").is_none() {
+        if thorough {
+            configs.push(Part { name: "M_max1", cfg: plain, k: 1, depth: 5, extra: true, alphabet: &alphabet });
+            configs.push(Part { name: "M_max3", cfg: plain, k: 3, depth: 5, extra: true, alphabet: &alphabet });
+            configs.push(Part { name: "A", cfg: auto, k: 2, depth: 5, extra: true, alphabet: &alphabet_a });
+            configs.push(Part { name: "A_max1", cfg: auto, k: 1, depth: 4, extra: true, alphabet: &alphabet_a });
+            configs.push(Part { name: "A_max3", cfg: auto, k: 3, depth: 4, extra: true, alphabet: &alphabet_a });
+            configs.push(Part { name: "B", cfg: bloom, k: 2, depth: 5, extra: true, alphabet: &alphabet });
+            configs.push(Part { name: "B_default_filter", cfg: Cfg { auto: false, bloom: 2 }, k: 2, depth: 4, extra: true, alphabet: &alphabet });
+            configs.push(Part { name: "AB", cfg: Cfg { auto: true, bloom: 1 }, k: 2, depth: 4, extra: true, alphabet: &alphabet_a });
+        } else {
+            configs.push(Part { name: "A", cfg: auto, k: 2, depth: 4, extra: true, alphabet: &alphabet_a });
+            configs.push(Part { name: "B", cfg: bloom, k: 2, depth: 4, extra: true, alphabet: &alphabet });
+        }
     }
+    if let Some(only) = &only {
+        configs.retain(|c| only.iter().any(|o| o == c.name));
+    }
+    let describe = |pred: &dyn Fn(&Part) -> bool| configs.iter().filter(|c| pred(c)).map(|c| format!("{}: K={} D={}{} {}", c.name, c.k, c.depth, if c.extra { "+1r" } else { "" }, c.cfg.store_name())).collect::<Vec<_>>();
     rep.rule(&format!(
-        "M: BFS over statement histories on a fresh QueryRouter(max_checkpoints=K, auto-checkpoint off): alphabet = {} data statements {:?} + CHECKPOINT 'c<k>' + ROLLBACK TO 'c<j>' for every checkpoint the reference retains; every history of <= D statements{}; (K,D) in {:?}; a history is expanded further only if its state key (read battery, retained checkpoints with their recorded batteries, numbers of checkpoints / node creates / edge creates, min(rollbacks,2)) is new; after every ROLLBACK: battery == battery recorded before that CHECKPOINT, checkpoint list == reference, one write per engine succeeds and is readable, rollback to the same checkpoint again, to another retained one and back. non-trivial = the database differed from the checkpoint image when ROLLBACK ran",
+        "M: BFS over statement histories on a fresh QueryRouter(max_checkpoints=K, auto-checkpoint off, store TensorStore::new()): alphabet = {} data statements {:?} + CHECKPOINT 'c<k>' + ROLLBACK TO 'c<j>' for every checkpoint the reference retains; every history of <= D statements, '+1r' = plus every history of D+1 statements ending in CHECKPOINT or ROLLBACK; parts {:?}; a history is expanded further only if its state key (read battery, retained checkpoints with their recorded batteries (without the LIST scans), numbers of checkpoints / node creates / edge creates, min(rollbacks,2)) is new; after every statement: listed checkpoint ids == reference (the newest K created); after every ROLLBACK: battery == battery recorded before that CHECKPOINT, checkpoint list == reference, one write per engine succeeds and is readable, rollback to the same checkpoint again, to another retained one and back. non-trivial = the database differed from the checkpoint image when ROLLBACK ran",
         alphabet.len(),
         alphabet,
-        if extra_level { ", plus every history of D+1 statements ending in CHECKPOINT or ROLLBACK" } else { "" },
-        configs.iter().map(|c| (c.1, c.2)).collect::<Vec<_>>()
+        describe(&|c| !c.cfg.auto && c.cfg.bloom == 0)
     ));
     rep.rule("S: 3..5 CHECKPOINTs within one clock second x entropy seeds 1..8, max_checkpoints=2: the newest two must be listed");
+    rep.rule(&format!(
+        "A: the BFS of M on a QueryRouter with CheckpointConfig::with_auto_checkpoint(true).with_interactive_confirm(false): alphabet = {} data statements {:?} (DropTableX = `DROP TABLE t` through QueryRouter::execute, the DROP TABLE path that calls protect_destructive_op) + CHECKPOINT + ROLLBACK TO every retained checkpoint (manual by name, automatic by id); parts {:?}. The state key of A holds the retained checkpoints in creation order by kind / auto name / recorded battery and min(checkpoints created, K+1) instead of absolute ordinals. A battery is recorded before every data statement that may reach protect_destructive_op (DELETE, UPDATE, DROP TABLE, NODE/EDGE/EMBED DELETE; machinery failure if any other kind creates a checkpoint); the checkpoints a data statement creates are learnt from CHECKPOINTS (new id, is_auto) and appended to the reference in creation order (ordinals count manual and automatic together; auto-checkpoints share the clock second of the checkpoint before them). After every statement the listed ids must be exactly the newest K of all checkpoints created so far (else c08:auto-checkpoint:retention-exceeds-limit / retention-keeps-wrong-set); ROLLBACK TO an auto-checkpoint must restore the battery recorded right before the statement that triggered it, followed by the same tail as in M. Which statements create auto-checkpoints is not demanded, only counted",
+        alphabet_a.len(),
+        alphabet_a,
+        describe(&|c| c.cfg.auto)
+    ));
+    rep.rule(&format!(
+        "B: the BFS of M (same alphabet, same oracle) on QueryRouter::with_shared_store(<Bloom-filtered TensorStore>), so get/exists of every engine and of the blob/checkpoint store go through the filter; parts {:?}. A violating history is re-run on TensorStore::new(): violations that show only with the filter are reported as c08:bloom-store:... (rollback-data becomes read-after-rollback-differs), the others under their part-M signature",
+        describe(&|c| c.cfg.bloom != 0)
+    ));
     rep.assume("reads are compared as sorted multisets; any error counts as one value 'failed' (error texts are not compared); internal row ids, checkpoint uuids and created_at are not compared");
     rep.assume("a checkpoint that the reference retains stays retained across data statements and rollbacks (the statement: retention is by count only)");
+    rep.assume("checkpoints are identified by the id CHECKPOINTS lists; a listed id never seen before with is_auto=true after a data statement is a checkpoint created by that statement (auto-checkpoint names are not unique, so ROLLBACK TO uses the id); 'newest' is creation order = statement order");
+    rep.assume("the battery taken before a destructive statement is what its auto-checkpoint must restore (the router snapshots in protect_destructive_op before it touches any data); reads of the battery do not change the database");
     rep.assume("state keys are 128-bit SipHash values of the canonical state; a collision would merge two states");
 
     // ---- part S (sequential: it needs the clock to stand still)
+    MAX_CP.store(2, std::sync::atomic::Ordering::Relaxed);
     let (s_cases, s_bad) = part_s(&mut rep, 8);
     rep.part("S_same_second_retention", json!({"cases": s_cases, "violating": s_bad}));
 
-    // ---- part M
-    let mut vacuous = false;
-    for (name, k, d) in configs {
-        MAX_CP.store(k, std::sync::atomic::Ordering::Relaxed);
-        let st = explore(&mut rep, name, &alphabet, d, extra_level, workers, selftest);
-        if name == "M" && (st.states < 200 || st.nontrivial < 50 || st.nt_added == 0 || st.nt_removed == 0 || st.purges == 0) {
-            vacuous = true;
+    // ---- parts M, A, B
+    let mut vacuous: Vec<String> = vec![];
+    for c in &configs {
+        MAX_CP.store(c.k, std::sync::atomic::Ordering::Relaxed);
+        let st = explore(&mut rep, c, workers, selftest);
+        if c.name == "M" && (st.states < 200 || st.nontrivial < 50 || st.nt_added == 0 || st.nt_removed == 0 || st.purges == 0) {
+            vacuous.push(format!("M: too few distinct states / non-trivial rollbacks / retention purges ({} / {} / {})", st.states, st.nontrivial, st.purges));
+        }
+        if c.name == "A" && (st.states < 200 || st.autos < 100 || st.auto_kinds < 3 || st.auto_purges < 20 || st.auto_nontrivial < 10 || st.mixed == 0) {
+            vacuous.push(format!("A: too few states / auto-checkpoints / kinds of them / purges caused by them / non-trivial rollbacks to them / mixed retained sets ({} / {} / {} / {} / {} / {})", st.states, st.autos, st.auto_kinds, st.auto_purges, st.auto_nontrivial, st.mixed));
+        }
+        if c.name == "B" && (st.states < 200 || st.nontrivial < 50 || st.nt_added == 0 || st.nt_removed == 0) {
+            vacuous.push(format!("B: too few distinct states / non-trivial rollbacks ({} / {})", st.states, st.nontrivial));
         }
         rep.add("states", st.states);
         rep.add("transitions", st.statements);
         rep.add("traces_validated_against_impl", st.replays);
         rep.add("evaluations", st.evaluations);
         rep.add("distinct_nontrivial", st.nontrivial);
+        rep.add("auto_checkpoints_created_by_last_statement", st.autos);
+        rep.add("rollback_checks_to_auto_checkpoints", st.auto_rollbacks);
+        if c.cfg.bloom != 0 {
+            rep.add("rollback_checks_on_bloom_filtered_store", st.rollback_checks);
+        }
     }
     rep.add("evaluations", s_cases);
     rep.set("cpu_s_including_workers", json!(cpu_seconds()));
-    rep.set("explanation", json!("no model of the database: every statement runs on the real QueryRouter; the reference is the battery recorded when the checkpoint was taken plus a list of the newest K checkpoint names"));
-    if vacuous {
-        rep.machinery("vacuous exploration: too few distinct states / non-trivial rollbacks / retention purges");
+    rep.set("explanation", json!("no model of the database: every statement runs on the real QueryRouter; the reference is the battery recorded when the checkpoint was taken (for an auto-checkpoint: right before the statement that triggered it) plus the list of the newest K checkpoints created"));
+    if !vacuous.is_empty() {
+        rep.machinery(format!("vacuous exploration: {}", vacuous.join("; ")));
     }
     if selftest {
         eprintln!("[C08] --selftest: the reference was corrupted on purpose (embedding 'z' pretended to exist at every checkpoint)");
     }
     rep.finish();
+}
+
+/// one exploration part
+struct Part<'a> {
+    name: &'static str,
+    cfg: Cfg,
+    /// max_checkpoints
+    k: usize,
+    depth: usize,
+    /// one more level restricted to CHECKPOINT / ROLLBACK
+    extra: bool,
+    alphabet: &'a [St],
 }
 
 struct Stats {
@@ -971,14 +1283,24 @@ struct Stats {
     nt_added: u64,
     nt_removed: u64,
     purges: u64,
+    rollback_checks: u64,
+    autos: u64,
+    auto_kinds: u64,
+    auto_purges: u64,
+    auto_rollbacks: u64,
+    auto_nontrivial: u64,
+    mixed: u64,
 }
 
-fn explore(rep: &mut Report, part: &str, alphabet: &[St], full_depth: usize, extra_level: bool, workers: usize, selftest: bool) -> Stats {
+fn explore(rep: &mut Report, pt: &Part, workers: usize, selftest: bool) -> Stats {
+    let (part, cfg, alphabet, full_depth, extra_level) = (pt.name, pt.cfg, pt.alphabet, pt.depth, pt.extra);
     let mut kept_per_sig: BTreeMap<String, u64> = BTreeMap::new();
     let mut seen: HashSet<(u64, u64)> = HashSet::new();
     let mut data_states: HashSet<u64> = HashSet::new();
     let mut nontrivial: HashSet<u64> = HashSet::new();
-    let (mut nt_added, mut nt_removed) = (0u64, 0u64);
+    let (mut nt_added, mut nt_removed, mut nt_auto) = (0u64, 0u64, 0u64);
+    let mut autos_by_name: BTreeMap<String, u64> = BTreeMap::new();
+    let (mut auto_purges, mut auto_rollbacks, mut mixed) = (0u64, 0u64, 0u64);
     let t_start = nvc::env::real_now_s();
     let mut frontier: Vec<(Vec<St>, Vec<u8>)> = vec![(vec![], vec![])];
     let mut tot = Outcome::default();
@@ -1008,7 +1330,7 @@ fn explore(rep: &mut Report, part: &str, alphabet: &[St], full_depth: usize, ext
         }
         let mut next: Vec<(Vec<St>, Vec<u8>)> = vec![];
         let mut new_states = 0u64;
-        let slices = run_level(&tasks, workers, selftest, depth);
+        let slices = run_level(part, &tasks, workers, cfg, selftest, depth);
         let mut outs: Vec<(u32, Outcome)> = vec![];
         let mut viols: Vec<(u32, Viol)> = vec![];
         for sl in slices {
@@ -1023,8 +1345,11 @@ fn explore(rep: &mut Report, part: &str, alphabet: &[St], full_depth: usize, ext
         if outs.len() != tasks.len() {
             rep.machinery(format!("{part} level {depth}: {} outcomes for {} tasks", outs.len(), tasks.len()));
         }
-        for (_, v) in viols {
+        for (_, mut v) in viols {
             kept_per_sig.entry(v.sig.clone()).and_modify(|c| *c += 1).or_insert(1u64);
+            if let Some(o) = v.replay.as_object_mut() {
+                o.insert("part".into(), json!(part));
+            }
             rep.violation(v.sig, v.msg, v.replay);
         }
         for (idx, o) in outs {
@@ -1038,31 +1363,28 @@ fn explore(rep: &mut Report, part: &str, alphabet: &[St], full_depth: usize, ext
             tot.tail_writes += o.tail_writes;
             tot.tail_skipped_tainted += o.tail_skipped_tainted;
             tot.tail_rollbacks += o.tail_rollbacks;
-            for (hh, a, r) in &o.nontrivial {
+            for (hh, a, r, au) in &o.nontrivial {
                 if nontrivial.insert(*hh) {
                     nt_added += u64::from(*a);
                     nt_removed += u64::from(*r);
+                    nt_auto += u64::from(*au);
                 }
             }
+            for n in &o.auto_created {
+                *autos_by_name.entry(n.clone()).or_insert(0) += 1;
+            }
+            auto_purges += o.auto_purges;
+            auto_rollbacks += o.auto_rollback_checks;
             data_states.insert(o.data_fingerprint);
             if seen.insert(o.key) {
                 new_states += 1;
-                if matches!(h.last(), Some(St::Rollback(_))) && sampled < 3 && h.len() >= 4 {
+                mixed += u64::from(o.mixed_retained);
+                let want_sample = if cfg.auto { matches!(h.last(), Some(St::Rollback(_))) && o.auto_rollback_checks > 0 } else { matches!(h.last(), Some(St::Rollback(_))) && h.len() >= 4 };
+                if want_sample && sampled < 2 {
                     sampled += 1;
-                    let mut m = Model::default();
-                    let texts: Vec<String> = h
-                        .iter()
-                        .map(|s| {
-                            let t = text_of(*s, &m);
-                            match s {
-                                St::Checkpoint => m.created += 1,
-                                St::NodeCreate => m.node_creates += 1,
-                                _ => {}
-                            }
-                            t
-                        })
-                        .collect();
-                    rep.sample(json!({"part": part, "max_checkpoints": max_cp(), "history": texts, "note": "node property k is the ordinal of successful creates; shown here assuming all succeeded"}));
+                    // the statements as they were executed (worker processes do not send them back)
+                    let texts = run_isolated(h, cfg, false, 1, false).texts;
+                    rep.sample(json!({"part": part, "max_checkpoints": max_cp(), "auto_checkpoint": cfg.auto, "store": cfg.store_name(), "history": texts}));
                 }
                 if depth < last_level {
                     next.push((h.clone(), o.live_ordinals));
@@ -1078,14 +1400,19 @@ fn explore(rep: &mut Report, part: &str, alphabet: &[St], full_depth: usize, ext
             rep.violation(sig.clone(), "", Value::Null);
         }
     }
+    let autos: u64 = autos_by_name.values().sum();
     rep.part(
         part,
         json!({
-            "max_checkpoints": max_cp(), "full_depth": full_depth, "extra_restricted_level": extra_level, "levels": levels, "replays": replays,
+            "max_checkpoints": max_cp(), "auto_checkpoint": cfg.auto, "store": cfg.store_name(), "alphabet": format!("{alphabet:?}"),
+            "full_depth": full_depth, "extra_restricted_level": extra_level, "levels": levels, "replays": replays,
             "distinct_states": seen.len(), "distinct_data_observations": data_states.len(),
             "rollback_checks": tot.rollback_checks, "distinct_nontrivial_rollbacks": nontrivial.len(),
             "nontrivial_with_data_added_after_checkpoint": nt_added, "nontrivial_with_data_removed_after_checkpoint": nt_removed,
             "retention_checks": tot.retention_checks, "retention_purges_expected": tot.purges,
+            "auto_checkpoints_created_by_last_statement": autos_by_name, "purges_caused_by_them": auto_purges,
+            "main_rollback_checks_to_auto_checkpoints": auto_rollbacks, "distinct_nontrivial_rollbacks_to_auto_checkpoints": nt_auto,
+            "distinct_states_retaining_manual_and_auto_checkpoints": mixed,
             "tail_write_probes": tot.tail_writes, "tail_probes_skipped_because_already_wrong": tot.tail_skipped_tainted, "tail_rollbacks": tot.tail_rollbacks,
             "violating_checks_by_signature": sig_counts, "worker_processes": workers, "wall_s": nvc::env::real_now_s() - t_start,
         }),
@@ -1099,5 +1426,12 @@ fn explore(rep: &mut Report, part: &str, alphabet: &[St], full_depth: usize, ext
         nt_added,
         nt_removed,
         purges: tot.purges,
+        rollback_checks: tot.rollback_checks,
+        autos,
+        auto_kinds: autos_by_name.len() as u64,
+        auto_purges,
+        auto_rollbacks,
+        auto_nontrivial: nt_auto,
+        mixed,
     }
 }
